@@ -88,7 +88,7 @@ structure Req where
   methodM : Method
   headers : Headers             -- prepared headers (after `try_prepare`)
   body : BodyM
-  bodyRewindable : Bool         -- false: a second `Body::write` produces nothing (multipart)
+  bodyRewindable : Bool         -- false: a second `Body::write` produces nothing (a caller's one-shot Body)
   deriving Repr
 
 inductive HopRes where
